@@ -424,11 +424,13 @@ def prove(check, props_file, theorems, extra_targets=()):
     if any(err for err in gen_status.values()):
         # theorems proved about the snapshot, not about the current source
         discharged = 0
-    check.coverage['obligations'] = len(theorems)
-    check.coverage['discharged'] = discharged
-    check.coverage['theorems'] = theorems
-    check.coverage['print_assumptions'] = details
-    check.coverage['checker_cmd'] = 'cd coq && coq_makefile -f _CoqProject -o Makefile && make %s && coqc %s  (Print Assumptions parsed against an allow-list)' % (target, props_file)
+    # a check may prove several theorem files: the counts add up
+    check.coverage['obligations'] = check.coverage.get('obligations', 0) + len(theorems)
+    check.coverage['discharged'] = check.coverage.get('discharged', 0) + discharged
+    check.coverage['theorems'] = check.coverage.get('theorems', []) + list(theorems)
+    check.coverage.setdefault('print_assumptions', {}).update(details)
+    cmd = 'cd coq && coq_makefile -f _CoqProject -o Makefile && make %s && coqc %s  (Print Assumptions parsed against an allow-list)' % (target, props_file)
+    check.coverage['checker_cmd'] = (check.coverage['checker_cmd'] + ' ; ' + cmd) if check.coverage.get('checker_cmd') else cmd
     check.coverage['translated_from'] = manifest
     return discharged == len(theorems)
 
